@@ -304,6 +304,7 @@ def run(prog, ctx):
                 res.discharged += 1
             else:
                 res.violate("C04.R", "C04.R|%s" % f.id, "%s does not re-insert every iterated entry (filter: %s)" % (f.id, [show(e) for e in badf]), f.id)
+    C.pairing_rule(res, prog, "C04.K", "theta::hash_table::ThetaHashTable", "entries", "num_entries", 5)
     res.rule("C04.R", n_r, 2, "re-insertion loops in resize/rebuild")
 
     # ---------------- C04.T trim / reset
